@@ -218,6 +218,11 @@ def run_once(body, ctx, prefix, want_sample=False, expect_sizes=None):
             traceback=traceback.format_exc()[-2000:],
         )
     if ch.pos < len(prefix):
+        if ctx.violations:
+            # the body stopped early BECAUSE it had something to report (e.g. the code under test failed before the point
+            # where the recorded execution made its next choice: it keeps state between executions); that is a finding
+            # about the code, not a defect of the harness -- the violation stands, nothing is expanded below it
+            return ch
         raise ReplayDivergence(
             "body made %d choices, prefix has %d" % (ch.pos, len(prefix))
         )
